@@ -136,7 +136,7 @@ def run_one(engine, seed, acc, tier):
         from . import shipped_props
         return shipped_props.run_one(ID, seed, acc, tier, level='after' if engine == 'shipped_after' else None)
     rng = core.Rng(core.h64('c03', seed))
-    case = gen.gen_case(seed, clean=rng.chance(0.45), defaults=(engine == 'synth' and rng.chance(0.12)))
+    case = gen.gen_case(seed, clean=rng.chance(0.45), defaults=(engine == 'synth' and rng.chance(0.22)))
     if case['sched'][0] is None or rng.chance(0.5):
         case['sched'] = [rng.randrange(1 << 32), rng.pick([1, 1, 3, 0])]
     if engine == 'synth_reuse':
